@@ -140,7 +140,7 @@ PROPS = {
                              "Windows raw_arg branch not verified"],
                 claim="Command::to_spawnable proved by Verus for all programs/argument vectors/options: argv and wrapper sequence equal the specification; tail of interpret_command_args proved (words -> program+args / joined command string, wrap mode -> group/session); spawn-hook dataflow proved in unit task",
                 trusted="stand-ins in prelude/command_env.rs (tokio Command recorder, process-wrap wrapper kinds)"),
-    "C03": dict(units=["ignore"], level="proof",
+    "C03": dict(units=["ignore", "ignorebuild"], level="proof",
                 assumptions=["glob semantics of one compiled ignore file (the `ignore` crate: pattern grammar, agreement with git check-ignore) are NOT decided: each file's matcher is an uninterpreted function of (file, path, is_dir)",
                              "PATH THEORY (trusted axioms in prelude/ignore_env.rs): a parent is shorter; an ancestor's display string is a textual prefix; a textual prefix cut at its last separator is a true ancestor; the longest-textual-prefix argument on one ancestor chain; the root is the shortest path",
                              "radix_trie::Trie::get_ancestor returns the entry with the longest key that is a textual prefix of the query (assumed contract of the dependency)",
@@ -184,7 +184,7 @@ PROPS = {
                              "CLI: the quit closure and the signal gate are proved; clap parsing and the signal sources are C01's sources unit"],
                 claim="Verus proves action::worker: loop ends only on quit or closed channel; abort quits at once; graceful quit stops-then-deletes every held job with the requested signal/grace and waits for all quit tasks and all job tasks; CLI: quit escalates graceful(stop signal, stop timeout) -> forced -> abort, an unmapped interrupt/terminate leads to exactly that quit; Handler::quit/quit_gracefully set the manner; job-side stop/delete/ticket behaviour is units task/flag (C04/C06/C07/C09 obligations)",
                 trusted="stand-ins in prelude/actionloop_env.rs, cliaction_env.rs, task_env.rs, flag_env.rs"),
-    "C14": dict(units=["discover", "ignore"], level="proof",
+    "C14": dict(units=["discover", "ignore", "ignorebuild"], level="proof",
                 assumptions=["the file system is a fixed function during one discovery (metadata and directory listings as uninterpreted functions; I/O may fail at any call); paths are abstract with parent/starts_with axioms (component-wise, no strings)",
                              "which directories the walker's filter ignores is IgnoreFilter::check_dir (unit ignore, C03) over the files added so far: an uninterpreted function here",
                              "the `.git/config` core.excludesFile lookup (gix-config, $HOME) is replaced by a stand-in adding at most one global git file; from_environment (global files) is not decided",
